@@ -113,6 +113,12 @@ def execute(case, obs):
         obs.fail(site_c, "construct-shape", f"columns {list(m.df.columns)} rows {len(m.df)}")
         obs.outcome = ("bad-construct",)
         return
+    if nan_cells:
+        # the holes are (also) punched into the live list: a value that went missing after construction must still be
+        # written as 0 (the constructor's own clean-up of the input table was judged just above)
+        for (r, c) in nan_cells:
+            if r < len(m.df):
+                m.df.iloc[r, m.df.columns.get_loc(COLS[c])] = np.nan
     want = expected_rows(m.df)  # the particle list that is being written, by field name
     nrows = want.shape[0]
     p1 = os.path.abspath("c01_a.em")
